@@ -45,7 +45,71 @@ def cases(tier, seed, args):
                               affiliation_eps=0.0)
             sc['E'] = 3
         out.append(sc)
+    # badly scaled / sharply concentrated regimes
+    for i in range(6 if q else 36):
+        if i % 2 == 0:
+            # GMM on small-scale data (class std 1e-3 .. 1e-5): absolute regularisers are no longer negligible
+            out.append(dict(t='ll', kind='gmm', L=[], K=2 + i % 2, D=2, N=60, wca=(-1,), wca_type='tuple', iterations=8 if q else 20,
+                            saliency=False, seed=int(rng.integers(1 << 30)), opts=dict(covariance_type=['full', 'diagonal', 'spherical'][(i // 2) % 3]),
+                            offset=0.0, sal_class=False, scale=[1e-3, 1e-4, 1e-5][(i // 6) % 3], informed=bool((i // 2) % 2)))
+        else:
+            # cWMM with sharply concentrated classes: fitted concentrations between 100 and the limit of 500
+            out.append(dict(t='ll', kind='cwmm', L=[], K=2, D=3, N=60, wca=(-1,), wca_type='tuple', iterations=15 if q else 30,
+                            saliency=False, seed=int(rng.integers(1 << 30)), opts={}, offset=0.0, sal_class=False,
+                            noise=[0.1, 0.07, 0.12][(i // 2) % 3], informed=bool((i // 2) % 2)))
     return out
+
+
+def _gauss_ref(g, x):
+    """log N(x; mean, cov) for x (..., K-broadcast, N, E) from the STORED mean / covariance (independent of log_pdf)."""
+    name = type(g).__name__
+    mean = np.asarray(g.mean, dtype=float)
+    cov = np.asarray(g.covariance, dtype=float)
+    d = x - mean[..., None, :]
+    E = d.shape[-1]
+    if name == 'Gaussian':
+        sign, logdet = np.linalg.slogdet(cov)
+        sol = np.linalg.solve(cov[..., None, :, :], d[..., None])[..., 0]
+        quad = np.sum(d * sol, axis=-1)
+        return -0.5 * E * np.log(2 * np.pi) - 0.5 * logdet[..., None] - 0.5 * quad
+    if name == 'DiagonalGaussian':
+        return -0.5 * E * np.log(2 * np.pi) - 0.5 * np.sum(np.log(cov), axis=-1)[..., None] - 0.5 * np.sum(d * d / cov[..., None, :], axis=-1)
+    return -0.5 * E * np.log(2 * np.pi) - 0.5 * E * np.log(cov)[..., None] - 0.5 * np.sum(d * d, axis=-1) / cov[..., None]
+
+
+def _cacg_ref(c, y):
+    z = ml.unit(y)[..., None, :, :]
+    U, lam = c.covariance_eigenvectors, c.covariance_eigenvalues
+    proj = np.einsum('...de,...nd->...ne', np.conj(U), z)
+    q = np.sum(np.abs(proj) ** 2 / lam[..., None, :], axis=-1)
+    return -y.shape[-1] * np.log(q) - np.sum(np.log(lam), axis=-1)[..., None]
+
+
+def ref_log_pdf(kind, model, data):
+    """Component log densities (*L, K, N) of the CURRENT model from their defining closed forms, evaluated on the stored
+    parameters with NumPy / SciPy only (no pb_bss density code)."""
+    from scipy.special import hyp1f1, gammaln
+    y = data['y']
+    if kind == 'cacgmm':
+        return _cacg_ref(model.cacg, y)
+    if kind == 'cwmm':
+        z = ml.unit(y)[..., None, :, :]
+        D = y.shape[-1]
+        w, kap = model.complex_watson.mode, np.asarray(model.complex_watson.concentration, dtype=float)
+        p = np.abs(np.einsum('...d,...nd->...n', np.conj(w), z)) ** 2
+        lognorm = np.log(2.0) + D * np.log(np.pi) - gammaln(D) + np.log(hyp1f1(1, D, kap))
+        return kap[..., None] * p - lognorm[..., None]
+    if kind == 'gmm':
+        return _gauss_ref(model.gaussian, y[..., None, :, :])
+    if kind == 'gcacgmm':
+        F, T, D = y.shape
+        emb = data['emb']
+        E = emb.shape[-1]
+        lp = _gauss_ref(model.gaussian, np.reshape(emb, (1, F * T, E)))
+        K = lp.shape[0]
+        lp = np.transpose(np.reshape(lp, (K, F, T)), (1, 0, 2))
+        return model.spatial_weight * _cacg_ref(model.cacg, y) + model.spectral_weight * lp
+    return None
 
 
 def _eff_weight(kind, model, full, wca):
@@ -66,6 +130,14 @@ def run_case(case):
     if kind == 'gmm':
         lab = rng.integers(0, K, size=(*L, N))
         data['y'] = rng.normal(size=(*L, N, D)) + 3.0 * np.eye(K, D)[lab] + case['offset']
+    lab0 = None
+    if kind == 'gmm' and case.get('scale'):
+        data['y'] = (data['y'] - case['offset']) * case['scale']
+        lab0 = lab
+    if kind == 'cwmm' and case.get('noise'):
+        proto = ml.unit(rng.normal(size=(K, D)) + 1j * rng.normal(size=(K, D)))
+        lab0 = rng.integers(0, K, size=(*L, N))
+        data['y'] = proto[lab0] + case['noise'] / np.sqrt(2) * (rng.normal(size=(*L, N, D)) + 1j * rng.normal(size=(*L, N, D)))
     lab = None
     if case.get('sal_class') and kind == 'cacgmm':
         # overlapping anisotropic cACG sources: y = A_k x
@@ -84,6 +156,9 @@ def run_case(case):
             sel = np.where((lab == k)[..., None, None], A[..., k, None, :, :], sel)
         data['y'] = np.einsum('...nde,...ne->...nd', sel, x)
     init = ml.make_init(rng, L, K, N)
+    if case.get('informed') and lab0 is not None:
+        init = 0.96 * np.moveaxis(np.eye(K)[lab0], -1, -2) + 0.04 / K
+        init = init / init.sum(-2, keepdims=True)
     opts = dict(case['opts'])
     opts['weight_constant_axis'] = mmd.wca_arg(case)
     sal = None
@@ -114,7 +189,8 @@ def run_case(case):
         model, exc = call(ml.fit, kind, data, init, case['iterations'], opts)
     finally:
         _verif.unregister(cb)
-    fp = f't=ll;model={kind};wca={case["wca"]};sal={case["saliency"]};salclass={case.get("sal_class")};opts={case["opts"]};offset={case["offset"]:g}'
+    fp = f't=ll;model={kind};wca={case["wca"]};sal={case["saliency"]};salclass={case.get("sal_class")};opts={case["opts"]};offset={case["offset"]:g}' \
+         f';scale={case.get("scale")};noise={case.get("noise")}'
     if model is None:
         if exc in mmd.EXPLICIT:
             return []
@@ -122,7 +198,13 @@ def run_case(case):
     full = [*L, K, N]
     recs = []
     for t, m in enumerate(models):
-        lp, e = call(ml.component_log_pdf, kind, m, data)
+        lp_own, e = call(ml.component_log_pdf, kind, m, data)
+        lp = lp_own
+        if lp_own is not None:
+            with np.errstate(all='ignore'):
+                ref, e_ref = call(ref_log_pdf, kind, m, data)
+            if ref is not None and np.shape(ref) == np.shape(lp_own):
+                lp = ref                # the likelihood is evaluated with the defining density of the current parameters
         if lp is None:
             recs.append(dict(kind='ll', exc='log_pdf:' + e, first=t == 0, fp=fp, key=f'll:{case["seed"]}:{t}', tid=case['seed']))
             continue
@@ -139,7 +221,7 @@ def run_case(case):
         hi = np.rint(np.nan_to_num(pw, posinf=0, neginf=0) * 1024.0)
         lo = pw - hi / 1024.0
         rec = dict(kind='ll', exc='', first=t == 0, full=full, fix_hi=[int(x) for x in hi.ravel()],
-                   fix_lo=[enc.flt(x) for x in lo.ravel()], w=flat(w), lp=flat(lp), ell=flat(ell),
+                   fix_lo=[enc.flt(x) for x in lo.ravel()], w=flat(w), lp=flat(lp), lp_own=flat(lp_own), ell=flat(ell),
                    kexp_args=[float(x) for x in args.ravel()], has_sal=sal is not None,
                    sal=flat(sal) if sal is not None else dict(shape=[], data=[]),
                    lam=flat(lam), kappa=flat(kap), floor=enc.flt(1e-10), kmin=enc.flt(0.0), kmax=enc.flt(500.0),
